@@ -5,8 +5,6 @@ V = os.path.dirname(os.path.dirname(os.path.abspath(__file__)))
 sys.path.insert(0, V)
 ALL = [f"C{i:02d}" for i in range(1, 21)]
 NOT_APPLICABLE = {
-    'C14': ('not built in this revision: the integer MATCH/MAUPITI back ends need their own requantisation handlers, a grammar of quantised 2D networks and '
-            'concrete-first handling of integerize_arch (feasibility probe in DESIGN.md Part II C14 / Part I.7); not replaced by a sampling check'),
 }
 NOT_YET = "check not built yet in this revision of /verif (planned, see DESIGN.md section 4)"
 LEVEL_TEXT = {
